@@ -1,6 +1,7 @@
 package rules
 
 import (
+	"fmt"
 	"go/types"
 	"strings"
 
@@ -183,7 +184,7 @@ func checkC01(P *core.Program, R *core.Report) {
 		R.Add("C01-upgrade-only", "x/amm/keeper.Keeper.MatchAmmBalances", "not consensus-reachable", P.Pos(m.Pos()), !subjects[m],
 			"MatchAmmBalances mints/burns pool assets to force the bank to the book; it may only run from an upgrade handler. "+strings.Join(P.PathTo(roots.Consensus(), m), " → "))
 	}
-	checkRecordFreshness(P, R, freshSpec{Rule: "C01-pool-fresh", Load: "x/amm/keeper.Keeper.GetPool", Store: "x/amm/keeper.Keeper.SetPool", Subjects: ammSubjects(P, subjects), Tolerated: map[string]string{}})
+	checkRecordFreshness(P, R, freshSpec{Rule: "C01-pool-fresh", Load: "x/amm/keeper.Keeper.GetPool", Store: "x/amm/keeper.Keeper.SetPool", Subjects: subjects, Tolerated: map[string]string{}})
 }
 
 func ammSubjects(P *core.Program, subjects map[*ssa.Function]bool) map[*ssa.Function]bool {
@@ -307,6 +308,7 @@ func checkC02(P *core.Program, R *core.Report) {
 		"(S2) minted supply − shares committed = 0 with CommitLiquidTokens / UncommitTokens of a share denom. The helpers MintPoolShareToAccount, BurnPoolShareFromAccount, ApplyJoinPoolStateChange, ApplyExitPoolStateChange are accounted at their call sites and their declared effects verified against their bodies (mint+commit of exactly `amount`; uncommit before burn). " +
 		"InitializePool mints pool.GetTotalShares().Amount after setting it. Σ over accounts is not decided (C12's ledger)."
 	subjects := P.Reach(P.FindRoots().Consensus())
+	checkJoinPoolBody(P, R)
 	mintBurn := func(P *core.Program, ff *core.FuncFacts, c ssa.CallInstruction, module, coins ssa.Value) string {
 		if isShareDenomCoins(ff, c, coins) != "" {
 			return "Supply"
@@ -528,4 +530,50 @@ func sameOriginPath(ff *core.FuncFacts, a, b ssa.Value) bool {
 		return false
 	}
 	return oa[0].Path == ob[0].Path
+}
+
+// checkJoinPoolBody verifies the lemma the share ledgers rest on (C02 treats Pool.JoinPool as
+// "TotalShares and the pool book grow by exactly what it returns"): on every success return
+// of Pool.JoinPool the returned share amount and the returned joined coins are the very
+// values handed to the IncreaseLiquidity call that precedes the return.
+func checkJoinPoolBody(P *core.Program, R *core.Report) {
+	const key = "x/amm/types.Pool.JoinPool"
+	fn := P.Fn(key)
+	if fn == nil {
+		R.Add("C02-joinpool-body", key, "function", "-", false, "unresolved anchor")
+		return
+	}
+	ff := P.Facts(fn)
+	var incs []ssa.CallInstruction
+	for _, c := range core.Calls(fn) {
+		if calleeMatches(P, c, "x/amm/types.Pool.IncreaseLiquidity") {
+			incs = append(incs, c)
+		}
+	}
+	n := 0
+	for _, ex := range ff.Exits() {
+		ret, ok := ex.Instr.(*ssa.Return)
+		if !ok || ex.Kind != core.ExitSuccess || len(ret.Results) < 2 {
+			continue
+		}
+		n++
+		var inc ssa.CallInstruction
+		for _, c := range incs {
+			if core.Dominates(c, ret) && (inc == nil || core.Dominates(inc, c)) {
+				inc = c
+			}
+		}
+		if inc == nil {
+			R.Add("C02-joinpool-body", key, "success return after IncreaseLiquidity", P.Pos(P.InstrPos(ret)), false, "a success return is not preceded by IncreaseLiquidity: shares would be reported without being booked")
+			continue
+		}
+		a := inc.Common().Args
+		sharesOK := ff.PolyOf(ret.Results[1]).Equal(ff.PolyOf(a[1]))
+		coinsOK := ff.Fwd(ret.Results[0]) == ff.Fwd(a[2]) || ff.LinOf(ret.Results[0]).Equal(ff.LinOf(a[2]))
+		R.Add("C02-joinpool-body", key, "returned shares/coins = booked shares/coins", P.Pos(P.InstrPos(ret)), sharesOK && coinsOK,
+			fmt.Sprintf("what JoinPool reports (minted and committed by the keeper, moved by the bank) must be what it added to TotalShares and the pool book; returned shares %s vs booked %s", ff.PolyOf(ret.Results[1]), ff.PolyOf(a[1])))
+	}
+	if n == 0 {
+		R.Add("C02-joinpool-body", key, "success returns", P.Pos(fn.Pos()), false, "no success return (anchor changed)")
+	}
 }
